@@ -220,7 +220,7 @@ pub fn err_kind(t: &str) -> &'static str {
     if t.starts_with("WRONGTYPE") { "EWrongType" }
     else if t.starts_with("ERR value is not an integer") || t.starts_with("ERR hash value is not an integer") { "ENotInteger" }
     else if t.starts_with("ERR increment or decrement would overflow") || t.starts_with("ERR decrement would overflow") { "EOverflow" }
-    else if t.starts_with("ERR syntax error") { "ESyntax" }
+    else if t.starts_with("ERR syntax error") || t.contains("options at the same time are not compatible") { "ESyntax" }
     else if t.starts_with("ERR wrong number of arguments") { "EArity" }
     else if t.starts_with("ERR invalid expire time") { "EInvalidExpire" }
     else if t.starts_with("ERR no such key") { "ENoSuchKey" }
@@ -330,6 +330,17 @@ pub fn snapshot(im: &mut Impl, keys: &[&str]) -> Result<Snapshot, String> {
         };
         let p = match im.exec(&Command::Pttl(ks.clone()))? { RespValue::Integer(i) => i, _ => i64::MIN };
         out.push((ks, d, p));
+    }
+    // the whole keyspace: DBSIZE and KEYS * must show exactly the keys seen above (an extra key - one
+    // outside the alphabet, or one that TYPE hides - would otherwise go unnoticed)
+    let n = im.exec(&Command::DbSize)?;
+    let mut all: Vec<Vec<u8>> = arr(&im.exec(&Command::Keys("*".into()))?).unwrap_or_default();
+    all.sort();
+    let mut seen: Vec<Vec<u8>> = out.iter().filter(|e| e.2 != -2).map(|e| e.0.as_bytes().to_vec()).collect();
+    seen.sort();
+    if n != RespValue::Integer(seen.len() as i64) || all != seen {
+        out.push(("*".to_string(), Dump::X(format!("DBSIZE {:?}, KEYS * {:?}, but TYPE shows the keys {:?}", n, all.iter().map(|b| String::from_utf8_lossy(b).to_string()).collect::<Vec<_>>(),
+                                                     seen.iter().map(|b| String::from_utf8_lossy(b).to_string()).collect::<Vec<_>>())), -3));
     }
     Ok(out)
 }
@@ -449,6 +460,8 @@ impl<'a> Gen<'a> {
     }
     /// grammatical NX/XX/GT/LT combination of EXPIRE/PEXPIRE
     fn expire_flags(&mut self) -> (bool, bool, bool, bool) {
+        // every subset of {NX, XX, GT, LT}, including the ones only the parsers refuse
+        if self.chance(0.3) { return (self.chance(0.5), self.chance(0.5), self.chance(0.5), self.chance(0.5)); }
         self.pick(&[(false, false, false, false), (false, false, false, false), (true, false, false, false), (false, true, false, false),
                     (false, false, true, false), (false, false, false, true), (false, true, true, false), (false, true, false, true)])
     }
@@ -467,7 +480,7 @@ impl<'a> Gen<'a> {
         match self.rng.gen_range(0..100) {
             // ---- strings
             0..=1 => Get(self.key(&st)),
-            2..=7 => { let (nx, xx) = self.pick(&[(false, false), (false, false), (true, false), (false, true)]);
+            2..=7 => { let (nx, xx) = self.pick(&[(false, false), (false, false), (true, false), (false, true), (true, true)]);
                        Set(self.key(&st), self.val(), self.xopt(true), nx, xx, self.chance(0.3)) }
             8 => SetNx(self.key(&st), self.val()),
             9 => Append(self.key(&st), self.val()),
@@ -515,6 +528,8 @@ impl<'a> Gen<'a> {
             87..=90 => { let n = self.rng.gen_range(1..=3);
                          let (nx, xx, gt, lt) = self.pick(&[(false, false, false, false), (false, false, false, false), (true, false, false, false), (false, true, false, false),
                             (false, false, true, false), (false, false, false, true), (false, true, true, false), (false, true, false, true)]);
+                         // every subset of {NX, XX, GT, LT, CH}, including the contradictory ones Redis refuses
+                         let (nx, xx, gt, lt) = if self.chance(0.4) { (self.chance(0.5), self.chance(0.5), self.chance(0.5), self.chance(0.5)) } else { (nx, xx, gt, lt) };
                          ZAdd(self.key(&zs), (0..n).map(|_| (self.score(), self.member())).collect(), nx, xx, gt, lt, self.chance(0.4)) }
             91 => ZRem(self.key(&zs), self.members(1, 3)),
             92 => ZScore(self.key(&zs), self.member()), 93 => ZRank(self.key(&zs), self.member()), 94 => ZCard(self.key(&zs)),
@@ -673,6 +688,8 @@ pub fn laws(c: &MCmd, r: &RespValue, before: &Snapshot, after: &Snapshot, now: u
                         c.name(), k, when, now, flags, pttl_before(k), r, pttl_after(k), wr, wp))); }
             }
         }
+        ZAdd(_, _, nx, xx, gt, lt, _) => if ((*nx && *xx) || (*gt && *lt) || (*nx && (*gt || *lt))) && kind != Some("ESyntax") {
+            out.push(f("zadd-contradictory-flags-accepted", format!("ZADD with the flag set nx={} xx={} gt={} lt={} replied {:?}; Redis refuses it (XX and NX / GT, LT, and/or NX options at the same time are not compatible)", nx, xx, gt, lt, r))); }
         RPopLPush(a, b) | LMove(a, b, _, _) => if a == b && kind.is_none() && pttl_before(a) != pttl_after(a) && find(before, a).is_some() {
             out.push(f("lmove-self-ttl", format!("{} of a list onto itself changed its TTL from {:?} to {:?}", c.name(), pttl_before(a), pttl_after(a)))); }
         _ => {}
